@@ -503,8 +503,16 @@ def extract_item(repo, relfile, path, subs, rules_used, src_override=None):
   # an edit that lies inside the text deleted by a larger edit (a field dropped by R6, a larger R3
   # replacement) is subsumed by it
   dels = [(x.pos, x.pos + x.dele, id(x)) for x in edits if x.dele > 0]
-  edits = [x for x in edits
-           if not any(a <= x.pos and x.pos + x.dele <= b and i != id(x) and (b - a) > x.dele for a, b, i in dels)]
+  def subsumed(x):
+    for a, b, i in dels:
+      if i == id(x) or (b - a) <= x.dele:
+        continue
+      if x.dele > 0 and a <= x.pos and x.pos + x.dele <= b:
+        return True
+      if x.dele == 0 and a < x.pos < b:   # an insertion at the border of a replaced region is kept
+        return True
+    return False
+  edits = [x for x in edits if not subsumed(x)]
   pieces, cur = _apply(src, start, edits)
   pieces.append(src[cur:end])
   text = ''.join(pieces)
